@@ -260,13 +260,61 @@ type c17sCase struct {
 	mode               string // uniform | early | rfirst | crossing
 	scriptI, scriptR   []byte
 	upfrontI, upfrontR []byte
+	// restarts: how many times the connection drops and both peers re-create
+	// their closers from the channel database (peer.loadActiveChannels /
+	// restartCoopClose); restartAt biases WHEN: rand | sd | neg | fin1.
+	restarts  int
+	restartAt string
 }
 
 const (
 	c17sClose = iota
 	c17sDeliver
 	c17sFlush
+	c17sRestart
 )
+
+// sentinels written at the start of every case so that "nothing persisted in
+// this case" is observable on a channel database that is shared by all cases
+// (the store has no delete for the shutdown info / close tx keys).
+var c17sSentScript = []byte{0xff}
+
+func c17sSentTx() *wire.MsgTx {
+	tx := wire.NewMsgTx(2)
+	tx.AddTxIn(&wire.TxIn{})
+	tx.AddTxOut(&wire.TxOut{PkScript: []byte{0xff}})
+	return tx
+}
+
+var c17sCloseFlags = channeldb.ChanStatusCoopBroadcasted |
+	channeldb.ChanStatusLocalCloseInitiator |
+	channeldb.ChanStatusRemoteCloseInitiator
+
+// c17sInfo reads the persisted ShutdownInfo of this case (nil = none).
+func c17sInfo(ch *lnwallet.LightningChannel) *channeldb.ShutdownInfo {
+	var out *channeldb.ShutdownInfo
+	si, err := ch.State().ShutdownInfo()
+	if err != nil {
+		return nil
+	}
+	si.WhenSome(func(i channeldb.ShutdownInfo) {
+		if !bytes.Equal(i.DeliveryScript.Val, c17sSentScript) {
+			out = &i
+		}
+	})
+	return out
+}
+
+// c17sCoopTx reads the persisted co-op close tx of this case (nil = none).
+func c17sCoopTx(ch *lnwallet.LightningChannel) *wire.MsgTx {
+	tx, err := ch.State().BroadcastedCooperative()
+	if err != nil || tx == nil ||
+		bytes.Equal(c17ser(tx), c17ser(c17sSentTx())) {
+
+		return nil
+	}
+	return tx
+}
 
 type c17sEvent struct {
 	kind int
@@ -325,19 +373,35 @@ func (c *c17) sched(chI, chR *lnwallet.LightningChannel, p c17sCase) {
 		chR.State().RemoteShutdownScript = origUpR
 	}()
 
+	for _, ch := range []*lnwallet.LightningChannel{chI, chR} {
+		st := ch.State()
+		if err := st.MarkCoopBroadcasted(c17sSentTx(), lntypes.Local); err != nil {
+			panic(err)
+		}
+		if err := st.ClearChanStatus(c17sCloseFlags); err != nil {
+			panic(err)
+		}
+		if err := st.MarkShutdownSent(channeldb.NewShutdownInfo(
+			c17sSentScript, false,
+		)); err != nil {
+			panic(err)
+		}
+	}
+
 	c.n++
 	stI := chI.State()
 	c.pf("CASE %d kind=sched type=%s taproot=%d idealI=%d idealR=%d "+
 		"maxCfgI=%d maxCfgR=%d closeBy=%s openerSat=%d otherSat=%d "+
 		"dustI=%d dustR=%d capacity=%d scriptI=%s scriptR=%s upfrontI=%s "+
-		"upfrontR=%s cap=%d mode=%s", c.n, p.tname,
+		"upfrontR=%s cap=%d mode=%s restarts=%d restartAt=%s", c.n, p.tname,
 		c17b(stI.ChanType.IsTaproot()), p.idealI, p.idealR, p.maxCfgI,
 		p.maxCfgR, p.closeBy, p.openerSat, p.otherSat,
 		int64(stI.LocalChanCfg.DustLimit),
 		int64(stI.RemoteChanCfg.DustLimit), int64(stI.Capacity),
 		c17sHex(p.scriptI), c17sHex(p.scriptR),
 		c17sHex(chI.RemoteUpfrontShutdownScript()),
-		c17sHex(chR.RemoteUpfrontShutdownScript()), p.maxMsgs, p.mode)
+		c17sHex(chR.RemoteUpfrontShutdownScript()), p.maxMsgs, p.mode,
+		p.restarts, p.restartAt)
 
 	mayClose := [2]bool{p.closeBy != "R", p.closeBy != "I"}
 	mk := func(name string, ch *lnwallet.LightningChannel, ideal,
@@ -370,10 +434,19 @@ func (c *c17) sched(chI, chR *lnwallet.LightningChannel, p c17sCase) {
 		)
 		return nd
 	}
+	// As in peer/brontide.go a closer created for a local close request is
+	// made with closer = Local (see the close event), one created on receipt
+	// of the peer's Shutdown with closer = Remote.
+	chs := [2]*lnwallet.LightningChannel{chI, chR}
+	names := [2]string{"I", "R"}
+	ideals := [2]int64{p.idealI, p.idealR}
+	maxCfgs := [2]int64{p.maxCfgI, p.maxCfgR}
+	scripts := [2][]byte{p.scriptI, p.scriptR}
 	nds := [2]*c17node{
-		mk("I", chI, p.idealI, p.maxCfgI, p.scriptI, mayClose[0]),
-		mk("R", chR, p.idealR, p.maxCfgR, p.scriptR, mayClose[1]),
+		mk("I", chI, p.idealI, p.maxCfgI, p.scriptI, false),
+		mk("R", chR, p.idealR, p.maxCfgR, p.scriptR, false),
 	}
+	restartsLeft := p.restarts
 	var q [2][]lnwire.Message // q[w] = messages addressed to w
 
 	processed, nev, closes, delivers := 0, 0, 0, 0
@@ -382,11 +455,14 @@ func (c *c17) sched(chI, chR *lnwallet.LightningChannel, p c17sCase) {
 	enabled := func() []c17sEvent {
 		var evs []c17sEvent
 		for w := 0; w < 2; w++ {
-			if mayClose[w] && nds[w].closer.state == closeIdle {
-				evs = append(evs, c17sEvent{c17sClose, w})
-			}
 			if len(q[w]) > 0 {
 				evs = append(evs, c17sEvent{c17sDeliver, w})
+			}
+			if nds[w].gone {
+				continue
+			}
+			if mayClose[w] && nds[w].closer.state == closeIdle {
+				evs = append(evs, c17sEvent{c17sClose, w})
 			}
 			if nds[w].closer.state == closeAwaitingFlush {
 				evs = append(evs, c17sEvent{c17sFlush, w})
@@ -402,6 +478,25 @@ func (c *c17) sched(chI, chR *lnwallet.LightningChannel, p c17sCase) {
 			}
 		}
 		return out
+	}
+	fin := func(w int) bool { return nds[w].closer.state == closeFinished }
+	neg := func(w int) bool {
+		return nds[w].closer.state == closeFeeNegotiation
+	}
+	wantRestart := func() bool {
+		if restartsLeft == 0 || nev == 0 {
+			return false
+		}
+		switch p.restartAt {
+		case "sd":
+			return nev == 1 || c.rng.Intn(12) == 0
+		case "neg":
+			return (neg(0) && neg(1) && c.rng.Intn(3) == 0) ||
+				c.rng.Intn(20) == 0
+		case "fin1":
+			return fin(0) != fin(1) && !nds[0].gone && !nds[1].gone
+		}
+		return c.rng.Intn(7) == 0
 	}
 	pick := func(evs []c17sEvent) c17sEvent {
 		cands := evs
@@ -433,25 +528,127 @@ func (c *c17) sched(chI, chR *lnwallet.LightningChannel, p c17sCase) {
 		return cands[c.rng.Intn(len(cands))]
 	}
 
+	// the persisted close state of one side, read back from the real channel
+	// database: ShutdownInfo (script / locally initiated), the co-op close
+	// tx (its fee, and whether it is byte-identical to the closer's closing
+	// tx and to the tx it handed to BroadcastTx), the three status flags.
+	sumOuts := func(tx *wire.MsgTx) int64 {
+		var sum int64
+		for _, o := range tx.TxOut {
+			sum += o.Value
+		}
+		return sum
+	}
+	dbStr := func(w int) string {
+		n := names[w]
+		info, loc := "-", 0
+		if i := c17sInfo(chs[w]); i != nil {
+			info, loc = c17sHex(i.DeliveryScript.Val), c17b(i.Closer().IsLocal())
+			if len(i.DeliveryScript.Val) == 0 {
+				info = "empty"
+			}
+		}
+		txs, same := "-", -1
+		if tx := c17sCoopTx(chs[w]); tx != nil {
+			txs = strconv.FormatInt(p.openerSat+p.otherSat-sumOuts(tx), 10)
+			same = 0
+			ct, err := nds[w].closer.ClosingTx()
+			nb := len(nds[w].bcast)
+			if err == nil && ct != nil && nb > 0 &&
+				bytes.Equal(c17ser(ct), c17ser(tx)) &&
+				bytes.Equal(c17ser(nds[w].bcast[nb-1]), c17ser(tx)) {
+
+				same = 1
+			}
+		}
+		st := chs[w].State()
+		return fmt.Sprintf("info%s=%s loc%s=%d tx%s=%s same%s=%d coop%s=%d "+
+			"li%s=%d ri%s=%d", n, info, n, loc, n, txs, n, same, n,
+			c17b(st.HasChanStatus(channeldb.ChanStatusCoopBroadcasted)),
+			n, c17b(st.HasChanStatus(channeldb.ChanStatusLocalCloseInitiator)),
+			n, c17b(st.HasChanStatus(channeldb.ChanStatusRemoteCloseInitiator)))
+	}
+
 	for !stopped {
 		evs := enabled()
-		if len(evs) == 0 {
+		restart := wantRestart()
+		if len(evs) == 0 && !restart {
 			break
 		}
 		if processed >= p.maxMsgs {
 			capped = true
 			break
 		}
-		e := pick(evs)
+		var e c17sEvent
+		if restart {
+			e = c17sEvent{kind: c17sRestart}
+		} else {
+			e = pick(evs)
+		}
 		nev++
 		nd, oth := nds[e.who], 1-e.who
 		res, initLine := "panic", ""
 		isErr := true
+		if e.kind == c17sRestart {
+			isErr = false
+		}
 		switch e.kind {
+		case c17sRestart:
+			// The connection drops: messages in flight are lost and both
+			// peers forget their closers. On reconnect each side does
+			// what peer.loadActiveChannels / restartCoopClose do: a
+			// channel with a co-op close tx on record is not loaded
+			// (only re-broadcast by the chain arbitrator); otherwise, if
+			// a ShutdownInfo is on record, a new closer is created from
+			// it (persisted delivery script, persisted closer, no max fee
+			// from a request) and its Shutdown is sent again.
+			restartsLeft--
+			q[0], q[1] = nil, nil
+			var parts [2]string
+			for w := 0; w < 2; w++ {
+				parts[w] = fmt.Sprintf("r%s=panic", names[w])
+				func() {
+					defer func() { _ = recover() }()
+					old := nds[w]
+					if old.gone || c17sCoopTx(chs[w]) != nil {
+						old.gone = true
+						parts[w] = fmt.Sprintf("r%s=gone", names[w])
+						return
+					}
+					info := c17sInfo(chs[w])
+					if info == nil {
+						nds[w] = mk(names[w], chs[w], ideals[w],
+							maxCfgs[w], scripts[w], false)
+						parts[w] = fmt.Sprintf("r%s=idle", names[w])
+						return
+					}
+					nds[w] = mk(names[w], chs[w], ideals[w], 0,
+						info.DeliveryScript.Val,
+						info.Closer().IsLocal())
+					sd, err := nds[w].closer.ShutdownChan()
+					if err != nil {
+						parts[w] = fmt.Sprintf("r%s=err", names[w])
+						isErr = true
+						return
+					}
+					q[1-w] = append(q[1-w], sd)
+					parts[w] = fmt.Sprintf("r%s=resend sd%s=%s n%s=%d",
+						names[w], names[w], c17sHex(sd.Address),
+						names[w], c17sNonce(sd))
+				}()
+			}
+			isErr = isErr || strings.Contains(parts[0]+parts[1], "panic")
+			c.pf("ev restart both => %s %s", parts[0], parts[1])
+
 		case c17sClose:
 			closes++
 			func() {
 				defer func() { _ = recover() }()
+				// peer.handleLocalCloseReq: a new closer for a local
+				// close request, closer = Local.
+				nds[e.who] = mk(names[e.who], chs[e.who], ideals[e.who],
+					maxCfgs[e.who], scripts[e.who], true)
+				nd = nds[e.who]
 				sd, err := nd.closer.ShutdownChan()
 				if err != nil {
 					res = "err " + c17sErr(err)
@@ -466,6 +663,17 @@ func (c *c17) sched(chI, chR *lnwallet.LightningChannel, p c17sCase) {
 			delivers++
 			m := q[e.who][0]
 			q[e.who] = q[e.who][1:]
+			if nd.gone {
+				// no closer, channel not loaded: the message is dropped
+				// (peer answers with an Error for an unknown channel)
+				kind := "cs"
+				if _, ok := m.(*lnwire.Shutdown); ok {
+					kind = "sd"
+				}
+				isErr = false
+				c.pf("ev deliver %s %s => dropped", nd.name, kind)
+				break
+			}
 			switch msg := m.(type) {
 			case *lnwire.Shutdown:
 				func() {
@@ -528,10 +736,12 @@ func (c *c17) sched(chI, chR *lnwallet.LightningChannel, p c17sCase) {
 				c.pf("%s", initLine)
 			}
 		}
-		c.pf("st I=%s R=%s qI=%d qR=%d cachedI=%d cachedR=%d",
+		c.pf("st I=%s R=%s qI=%d qR=%d cachedI=%d cachedR=%d goneI=%d goneR=%d",
 			nds[0].stateName(), nds[1].stateName(), len(q[0]), len(q[1]),
 			c17b(nds[0].closer.cachedClosingSigned.IsSome()),
-			c17b(nds[1].closer.cachedClosingSigned.IsSome()))
+			c17b(nds[1].closer.cachedClosingSigned.IsSome()),
+			c17b(nds[0].gone), c17b(nds[1].gone))
+		c.pf("db %s %s", dbStr(0), dbStr(1))
 		if isErr {
 			// negotiateCloseErrHandler: the connection is torn down
 			stopped = true
@@ -567,6 +777,12 @@ func (c *c17) sched(chI, chR *lnwallet.LightningChannel, p c17sCase) {
 	if eI == nil && eR == nil && tI != nil && tR != nil {
 		txeq = c17b(bytes.Equal(c17ser(tI), c17ser(tR)))
 	}
+	dbeq := -1
+	if a, b := c17sCoopTx(chI), c17sCoopTx(chR); a != nil && b != nil {
+		dbeq = c17b(bytes.Equal(c17ser(a), c17ser(b)))
+	}
+	c.pf("dbend dbeq=%d goneI=%d goneR=%d restarts=%d", dbeq,
+		c17b(nds[0].gone), c17b(nds[1].gone), p.restarts-restartsLeft)
 	c.pf("end processed=%d capped=%d stateI=%s stateR=%s txfeeI=%d "+
 		"txfeeR=%d txeq=%d bcastI=%d bcastR=%d lastI=%d lastR=%d "+
 		"offersI=%s offersR=%s outsI=%s outsR=%s", processed, c17b(capped),
@@ -726,6 +942,7 @@ func TestVerifC17Sched(t *testing.T) {
 	defer c.w.Flush()
 
 	c.pf("FACT maxFeeMult=%d", defaultMaxFeeMultiplier)
+	rr := rand.New(rand.NewSource(seed*104729 + 71))
 
 	mult := 1
 	if thorough {
@@ -808,6 +1025,14 @@ func TestVerifC17Sched(t *testing.T) {
 			}
 			p.upfrontI = c.upfront(p.scriptR)
 			p.upfrontR = c.upfront(p.scriptI)
+			// restarts (separate generator: the draws above are
+			// unchanged)
+			p.restartAt = "none"
+			if rr.Intn(3) == 0 {
+				p.restarts = 1 + rr.Intn(2)
+				p.restartAt = []string{"rand", "sd", "neg", "fin1",
+					"fin1"}[rr.Intn(5)]
+			}
 			c.sched(chI, chR, p)
 		}
 	}
